@@ -17,6 +17,9 @@ type c02From struct {
 	DB          string `json:"db,omitempty"`
 	RP          string `json:"rp,omitempty"`
 	WhereMin    int    `json:"where_min"` // -1: no where(); else lambda: "v" >= WhereMin
+	// WhereKind: 0 the field "v" every point carries; 1 the tag "k" == 'a' and 2 the field "u" >= WhereMin, which only some
+	// points carry (a point without the referenced tag or field is not selected).
+	WhereKind int `json:"where_kind,omitempty"`
 }
 
 type c02Task struct {
@@ -31,6 +34,16 @@ type c02Point struct {
 	M string `json:"m"`
 	V int    `json:"v"`
 	S int    `json:"s"`
+	K string `json:"k,omitempty"` // optional tag
+	U int    `json:"u"`           // optional field, -1 = absent
+}
+
+// effRP: a write that names no retention policy is a write to the default one.
+func effRP(rp string) string {
+	if rp == "" {
+		return "autogen"
+	}
+	return rp
 }
 
 type c02Write struct {
@@ -46,7 +59,7 @@ type c02Scenario struct {
 }
 
 var c02DBs = []string{"db0", "db1"}
-var c02RPs = []string{"rp0", "rp1"}
+var c02RPs = []string{"autogen", "rp1"} // "autogen" is the daemon's default-retention-policy
 var c02Ms = []string{"m0", "m1", "m2"}
 
 func c02Gen(c *Ctx) *c02Scenario {
@@ -82,6 +95,7 @@ func c02Gen(c *Ctx) *c02Scenario {
 			}
 			if g.Chance(1, 4) {
 				f.WhereMin = g.Range(1, 8)
+				f.WhereKind = []int{0, 0, 1, 2}[g.Intn(4)]
 			}
 			t.Froms = append(t.Froms, f)
 			sb.WriteString("stream\n    |from()")
@@ -95,7 +109,14 @@ func c02Gen(c *Ctx) *c02Scenario {
 				fmt.Fprintf(&sb, ".retentionPolicy('%s')", f.RP)
 			}
 			if f.WhereMin >= 0 {
-				fmt.Fprintf(&sb, ".where(lambda: \"v\" >= %d)", f.WhereMin)
+				switch f.WhereKind {
+				case 1:
+					sb.WriteString(".where(lambda: \"k\" == 'a')")
+				case 2:
+					fmt.Fprintf(&sb, ".where(lambda: \"u\" >= %d)", f.WhereMin)
+				default:
+					fmt.Fprintf(&sb, ".where(lambda: \"v\" >= %d)", f.WhereMin)
+				}
 			}
 			fmt.Fprintf(&sb, "\n    |log().prefix('%s/%d')\n", t.ID, k)
 		}
@@ -128,9 +149,12 @@ func c02Gen(c *Ctx) *c02Scenario {
 		seq := 0
 		for seq < n {
 			wr := c02Write{DB: g.Pick(c02DBs), RP: g.Pick(c02RPs)}
+			if g.Chance(1, 5) {
+				wr.RP = "" // written without naming a retention policy
+			}
 			k := g.Range(1, 3)
 			for j := 0; j < k && seq < n; j++ {
-				wr.Points = append(wr.Points, c02Point{M: g.Pick(c02Ms), V: g.Intn(10), S: seq})
+				wr.Points = append(wr.Points, c02Point{M: g.Pick(c02Ms), V: g.Intn(10), S: seq, K: []string{"", "a", "b"}[g.Intn(3)], U: g.Intn(11) - 1})
 				seq++
 			}
 			ws = append(ws, wr)
@@ -150,8 +174,21 @@ func (f c02From) selects(db, rp string, p c02Point) bool {
 	if f.Measurement != "" && f.Measurement != p.M {
 		return false
 	}
-	if f.WhereMin >= 0 && p.V < f.WhereMin {
-		return false
+	if f.WhereMin >= 0 {
+		switch f.WhereKind {
+		case 1:
+			if p.K != "a" {
+				return false
+			}
+		case 2:
+			if p.U < 0 || p.U < f.WhereMin {
+				return false
+			}
+		default:
+			if p.V < f.WhereMin {
+				return false
+			}
+		}
 	}
 	return true
 }
@@ -218,7 +255,14 @@ func runC02(c *Ctx) Verdict {
 				for _, wr := range ws {
 					var sb strings.Builder
 					for _, p := range wr.Points {
-						fmt.Fprintf(&sb, "%s,host=h%d w=%di,s=%di,v=%di %d\n", p.M, w, w, p.S, p.V, 1000000*(p.S+1))
+						tag, fld := "", ""
+						if p.K != "" {
+							tag = ",k=" + p.K
+						}
+						if p.U >= 0 {
+							fld = fmt.Sprintf(",u=%di", p.U)
+						}
+						fmt.Fprintf(&sb, "%s,host=h%d%s w=%di,s=%di,v=%di%s %d\n", p.M, w, tag, w, p.S, p.V, fld, 1000000*(p.S+1))
 					}
 					code := d.WriteLine(wr.DB, wr.RP, sb.String())
 					mu.Lock()
@@ -308,11 +352,11 @@ func runC02(c *Ctx) Verdict {
 			}
 			want := map[int][]int{}
 			for _, a := range acks {
-				if !a.ack || !t.declares(a.wr.DB, a.wr.RP) {
+				if !a.ack || !t.declares(a.wr.DB, effRP(a.wr.RP)) {
 					continue
 				}
 				for _, p := range a.wr.Points {
-					if f.selects(a.wr.DB, a.wr.RP, p) {
+					if f.selects(a.wr.DB, effRP(a.wr.RP), p) {
 						want[a.w] = append(want[a.w], p.S)
 					}
 				}
